@@ -359,6 +359,8 @@ M("C08", "output-opened-in-append-mode", "iodata/api.py", r'(            data = 
 
 M("C08", "writer-raises-prepare-error", F + "xyz.py", r"(    if atom_columns is None:\n        atom_columns = DEFAULT_ATOM_COLUMNS\n    # Write the header)", "    if atom_columns is not None and len(atom_columns) == 0:\n        raise PrepareDumpError(\"atom_columns is empty\", f)\n\\1", "C08-R9", also=[(r"from \.\.utils import ", "from ..utils import PrepareDumpError, ")])
 
+M("C07", "molekel-pushback-then-continue", F + "molekel.py", r"(            if len\(words\) != 2:\n                lit\.back\(line\)\n                )break", "\\1continue", "C07-R4")
+
 # ----------------------------------------------------------------------------- additions (fourth round, batch 6)
 M("C07", "extxyz-title-parsed-after-putback", F + "extxyz.py", r"    atom_columns, title_data = _parse_title\(title_line, lit\)\n    lit\.back\(title_line\)\n    lit\.back\(atom_line\)\n", "    lit.back(title_line)\n    lit.back(atom_line)\n    atom_columns, title_data = _parse_title(title_line, lit)\n", "C07-R8")
 M("C07", "mol2-atom-loop-skips-blank-lines", F + "mol2.py", r"(    for i in range\(natoms\):\n        words = next\(lit\)\.split\(\)\n)", "\\1        if not words:\n            continue\n", "C07-R9")
